@@ -45,6 +45,14 @@ def gen_plan(rng, index, tier):
     nb = (1 if plate else 0) + nfuel + (1 if plenum else 0) + 1
     heights = [rng.choice([10.0, 15.5, 25.0, 30.0]) for _ in range(nb - 1)] + [rng.choice([40.0, 60.0])]
     bp = {"rings": rng.choice([1, 1, 2]), "symmetry": "full", "nfuel": nfuel, "plate": plate, "plenum": plenum, "dummy": True, "heights": heights, "sfp": False, "geom": "hex"}
+    if rng.random() < 0.35:
+        # square assemblies; optionally a duct-only shield block (whose target is its duct) on top of
+        # the fuel, and the fuel blocks' duct declared as a Rectangle of the same size
+        bp["geom"] = "cartesian"
+        if rng.random() < 0.6:
+            bp["shield"] = True
+            bp["heights"] = heights[: nb - 1] + [rng.choice([10.0, 25.0])] + heights[nb - 1 :]
+            bp["rect_duct"] = rng.random() < 0.6
     if rng.random() < 0.3:
         bp["fuel_target"] = "clad"  # the blueprint designates the clad, not the fuel, as the fuel blocks' target
     cfg = {"reactor": "gen", "blueprint": bp, "settings": {"nCycles": 1, "burnSteps": 1, "detailedAxialExpansion": True}, "actors": []}
@@ -59,7 +67,7 @@ def gen_plan(rng, index, tier):
             s["blocks"] = rng.randrange(2**8)
             s["factors"] = [round(rng.uniform(0.92, 1.1), 4) for _ in range(6)]
         else:
-            s["temps"] = [rng.choice([350.0, 400.0, 450.0, 475.0, 500.0]) for _ in range(4)]
+            s["temps"] = [rng.choice([0.0, 25.0, 350.0, 400.0, 450.0, 475.0, 500.0]) for _ in range(4)]
             s["npts"] = rng.choice([40, 80])
         steps.append(s)
     return {"config": cfg, "steps": steps}
@@ -186,6 +194,8 @@ class Runner:
                     + ("" if low_is_target is not False else f" (it is stacked on {low.name} of the block below, which is not that block's target)"),
                     what="target",
                     lowerLinkIsTarget=low_is_target,
+                    target=str(tname),
+                    lowerSameType=None if low is None else type(low) is type(t),
                 )
         # uniform growth of a block: every solid of it conserves mass across the step
         if uniform_blocks:
@@ -290,8 +300,31 @@ class Runner:
             for b in a:
                 if not any(float(b.p.zbottom) <= z <= float(b.p.ztop) for z in grid):
                     return False
+            blks = list(a)
+            was = []
+            for b in blks[:-1]:
+                tn = b.p.axialExpTargetComponent
+                t = b.getComponentByName(tn) if tn else None
+                was.append((t, None if t is None else float(t.temperatureInC), float(b.getHeight())))
             ch.performThermalAxialExpansion(a, grid, field, setFuel=True)
             self.check(k, st, a, before)
+            # the boundary follows the target: where the target stands on the block below's top (bottom
+            # block, or nothing / that block's own target underneath), the block grows by the target
+            # material's linear expansion from its previous to its new temperature
+            for bi, (t, T0, h0) in enumerate(was):
+                if t is None or blks[bi].p.axialExpTargetComponent != t.name:
+                    continue
+                lk = ch.linked.linkedComponents.get(t) if ch.linked is not None else None
+                low = getattr(lk, "lower", None) if lk is not None else None
+                if bi > 0 and low is not None and not ch.expansionData.isTargetComponent(low):
+                    continue
+                T1 = float(t.temperatureInC)
+                m = t.material
+                want = h0 * (1.0 + m.linearExpansionPercent(Tc=T1) / 100.0) / (1.0 + m.linearExpansionPercent(Tc=T0) / 100.0)
+                got = float(blks[bi].getHeight())
+                if abs(got - want) > 1e-9 * max(1.0, want):
+                    self.fail("C12.target", f"step {k} (thermal): block {bi} follows {t.name} ({type(m).__name__}), which went from {T0} C to {T1} C: height {h0} -> {got}, the material's expansion gives {want}", what="thermal-growth", op="thermal")
+                self.probe("thermal_growth_checked")
             self.probe("thermal")
             self.sig.append((op, tuple(temps)))
             return True
